@@ -41,6 +41,7 @@ type vfTask struct {
 	emit   func(m map[string]any)
 	term   func() bool
 	saw    *atomic.Int32 // tasks that have observed cancellation
+	wrapc  bool          // "fail" returns an error wrapping context.Canceled
 }
 
 func (t *vfTask) Ready() <-chan struct{} { return t.readyC }
@@ -62,11 +63,16 @@ func (t *vfTask) Run(ctx context.Context) error {
 		case c := <-t.cmd:
 			switch c {
 			case "ready":
-				close(t.readyC)
+				// logged before the effect: the announcement can only follow the close, so a "nready" line can never
+				// overtake the "tready" line of a task that really was ready first
 				t.emit(map[string]any{"ev": "tready", "i": t.i})
+				close(t.readyC)
 			case "fail":
 				t.emit(map[string]any{"ev": "tfail", "i": t.i})
 				t.emit(map[string]any{"ev": "texit", "i": t.i})
+				if t.wrapc { // a fatal error that happens to wrap a cancellation of some inner context of the task
+					return fmt.Errorf("vf: task %d failed: %w", t.i, context.Canceled)
+				}
 				return fmt.Errorf("vf: task %d failed", t.i)
 			case "early":
 				t.emit(map[string]any{"ev": "tearly", "i": t.i})
@@ -181,7 +187,7 @@ func vfServeScenario(rec *vfRec, sc map[string]any, sockPath string) {
 	var stubs []*vfTask
 	for i, b := range behs {
 		st := &vfTask{i: i + 1, beh: b.(string), readyC: make(chan struct{}), cmd: make(chan string), rel: make(chan struct{}),
-			emit: emit, term: srv.t.terminate, saw: &saw}
+			emit: emit, term: srv.t.terminate, saw: &saw, wrapc: vfBool(sc, "failwrap", false)}
 		stubs = append(stubs, st)
 		tasks = append(tasks, st)
 	}
